@@ -166,3 +166,51 @@ void h_tensordot(void){   /* integer axes N: contract the last N axes of a with 
   OBS(out); OBS(od); OBS(os[0]); REACHED();
 }
 #endif
+
+/* operands of different element types, 1-d (N cells each; WIDE selects which side is uint16 = 256 + byte): element type of the result is a common type of both (uint16 or int, never uint8), element == the definition evaluated in that type */
+#if !defined(R_TRACE) && !defined(SYMSHAPE)
+#ifndef WIDE
+#define WIDE 0
+#endif
+#define KMIX2(name, w) CAT(CAT(CAT(k_,name),_mix_),w)
+#if defined(R_OUTER)
+#define MIXCALL(w) KMIX2(outer, w)
+#elif defined(R_VECDOT)
+#define MIXCALL(w) KMIX2(vecdot, w)
+#elif defined(R_DOT)
+#define MIXCALL(w) KMIX2(dot, w)
+#elif defined(R_INNER)
+#define MIXCALL(w) KMIX2(inner, w)
+#elif defined(R_KRON)
+#define MIXCALL(w) KMIX2(kron, w)
+#else
+#define MIXCALL(w) KMIX2(tensordot, w)
+#endif
+void h_mixed(void){
+  u64 s1[1] = {A0}, midx[4] = {0}, mos[4] = {0}, mod_ = 9, esz = 0; u8 xa[16], xb[16]; u32 mout = 0;
+  in_data8(xa, 16); in_data8(xb, 16);
+  u64 i = in_u64(0, 15), j = in_u64(0, 15);
+#if defined(R_OUTER)
+  ASSUME(i < A0 && j < A0); midx[0] = i; midx[1] = j; u64 nidx = 2;
+#elif defined(R_KRON)
+  ASSUME(i < A0 * A0); j = 0; midx[0] = i; u64 nidx = 1;
+#else
+  i = 0; j = 0; u64 nidx = 0;
+#endif
+  int r = WIDE ? MIXCALL(wn)(s1, xa, s1, xb, midx, nidx, mos, &mod_, &mout, &esz) : MIXCALL(nw)(s1, xa, s1, xb, midx, nidx, mos, &mod_, &mout, &esz);
+  ASSERT(r == 1, "has a value");
+  /* uint16 (NumPy's common type, used by the reduction-based routines) or int (what C yields for uint8 * uint16, used by the ufunc-based ones): never the narrower operand's type */
+  ASSERT(esz == 2 || esz == 4, "element type of the result is a common type of both operand element types (uint16 or int), not the narrower operand type");
+#define INTYPE(v) (esz == 2 ? (u32)(u16)(v) : (u32)(v))
+#define XA(k) ((u32)xa[k] + (WIDE ? 256u : 0u))
+#define XB(k) ((u32)xb[k] + (WIDE ? 0u : 256u))
+#if defined(R_OUTER)
+  ASSERT(mout == INTYPE(XA(i) * XB(j)), "outer element in the reported common type");
+#elif defined(R_KRON)
+  ASSERT(mout == INTYPE(XA(i / A0) * XB(i % A0)), "kron element in the reported common type");
+#else
+  { u32 acc = 0; for (u64 k = 0; k < 4; k++) if (k < A0) acc += XA(k) * XB(k); ASSERT(mout == INTYPE(acc), "sum of products in the reported common type"); }
+#endif
+  OBS(mout); OBS(esz); REACHED();
+}
+#endif
